@@ -262,6 +262,17 @@ def gen_cases(tier: str, seed: int) -> List[Dict]:
         # (literal-only argument here: with a symbolic one this case makes z3 run for minutes on a two-equation cubic query)
         blit = S.make_poly_spec("b", ("q1",), [[0], [1]], (), rng, 0, mode="raw", zero_prob=0.0, literal_prob=1.0)
         add("subst-deep", poly=p, args=[], kwargs={"q1": c, "q0": blit}, mode="direct")
+    # polynomial arguments that are numbers in disguise: the zero polynomial stored as an all-zero non-constant term (what
+    # q1 - q1 is under retain_coefficients=True, or a derivative / alignment result), constants storing such a term before the constant
+    for psh in [(), (2,)]:
+        p = poly("a", ("q0", "q1"), psh, 3, 3)
+        zero1 = {"kind": "poly", "names": ["q1"], "exps": [[1]], "shape": [], "slots": [[0]], "mode": "raw"}
+        zero2 = {"kind": "poly", "names": ["q0", "q1"], "exps": [[0, 1], [2, 0]], "shape": [], "slots": [[0], [0]], "mode": "raw"}
+        const = {"kind": "poly", "names": ["q0", "q1"], "exps": [[1, 1], [0, 0]], "shape": [], "slots": [[0], [3]], "mode": "raw"}
+        add("subst-disguised-number", poly=p, args=[zero1], kwargs={}, mode="direct")
+        add("subst-disguised-number", poly=p, args=[], kwargs={"q1": zero2}, mode="direct")
+        add("subst-disguised-number", poly=p, args=[const, zero1], kwargs={}, mode="direct")
+        add("subst-disguised-number", poly=p, args=[num("x", ())], kwargs={"q1": const}, mode="direct")
     # renaming by a permutation that is not its own inverse (3-cycles need three indeterminates)
     def var(nm):
         return {"kind": "poly", "names": [nm], "exps": [[1]], "shape": [], "slots": [[1]], "mode": "raw"}
